@@ -22,6 +22,7 @@ RULE = ('streams of 0-8 R-produced messages (mixed editions, compressed or not, 
         '7777 and complete inner messages inside 205YYY fields) joined by separators (empty, GTS headers, noise, '
         'BUF, BU, 7777, ...) x {full, info-only} x filters over data_category / n_subsets / edition / is_compressed; '
         'non-trivial = >= 2 messages or a non-empty separator or a hostile payload; distinct by SHA-1 of (stream, mode, filter); scans repeated with ignore_value_expectation / wire_template_data=False / continue_on_error; 42-48 octet messages at the end of a stream; commands over two files per invocation; decode -m [-j] [--filter]')
+RULE += '; added with rounds 10-12: 2-4 scans with options of their own advanced under a random schedule on one shared decoder / one each, scans left half-way, complete nested scans from the loop body; consumers that wrap or release a delivered piece; filters over PBK_FILENAME on a named stream; twins'
 ASSUMPTIONS = ['separators do not contain the start signature (statement\'s proviso)',
                'a stream of n bytes can yield at most n/12 messages (logical progress cap instead of a wall-clock verdict)',
                'filter expressions use metadata only; their truth is computed from the metadata the stream was built with']
